@@ -2,6 +2,7 @@ package simrt
 
 import (
 	"cmp"
+	"os"
 	"sort"
 )
 
@@ -94,3 +95,19 @@ func Pre[T any](_ struct{}, v T) T { return v }
 
 // PreDo runs f after its first argument has been evaluated.
 func PreDo(_ struct{}, f func()) { f() }
+
+// WriteFile is os.WriteFile with the crash point it has in reality: the file is created or truncated, and
+// only then written. A process that dies in between leaves an empty file behind.
+func WriteFile(name string, data []byte, perm os.FileMode) error {
+	FS("os.WriteFile:truncate")
+	f, err := os.OpenFile(name, os.O_WRONLY|os.O_CREATE|os.O_TRUNC, perm)
+	if err != nil {
+		return err
+	}
+	FS("os.WriteFile:write")
+	_, err = f.Write(data)
+	if err1 := f.Close(); err1 != nil && err == nil {
+		err = err1
+	}
+	return err
+}
